@@ -415,3 +415,23 @@ PROPS["C13"] = Prop(
     technique="runtime monitor: executable reference model of the distances list checked after every call, under gcc ASan+UBSan+LSan",
     level_text="exploration: random add/remove/restrict/dup/XML/transform histories against a reference list model, all query variants after every call",
 )
+
+
+PROPS["C14"] = Prop(
+    "C14",
+    [Stage("asan", "c14_memattrs", "asan", quick=4000, thorough=80000, per_worker_env=xml_backend_env)],
+    rule=("reference map model attribute -> target node -> {no-initiator value | initiators (cpuset or object) -> value}, seeded from what the loaded "
+          "topology already holds: histories of 5-14 calls (valid and invalid register, set_value with cpuset / sub-cpuset / object / NULL / empty "
+          "initiators and bad flags, restrict, dup and XML round trip as carriers, refresh); after every call, for every attribute: get_by_name / "
+          "get_name / get_flags, get_targets (NULL, stored, random initiators; array sizes 0, exact, larger, smaller), get_initiators (same sizes), "
+          "get_value for every stored entry (exact and sub-cpuset) and for unknown targets, get_best_target / get_best_initiator optimality with "
+          "ties, Capacity / Locality against local_memory / cpuset weight and read-only, get_local_numanode_objs for random locations and flag words "
+          "against the definition, get_default_nodeset (existing nodes, pairwise disjoint cpusets). distinct+non-trivial = class 1: histories ending "
+          "with >= 3 stored values that crossed >= 1 carrier or restrict, keyed by operation sequence"),
+    nontrivial_classes=[1], floor=100,
+    assumptions=COMMON_ASSUME + ["stored cpuset initiators of one (attribute, target) are kept pairwise disjoint as the statement requires: a set_value whose cpuset partially "
+                                 "overlaps a stored one is not issued", "initiator cpusets are taken inside the topology cpuset",
+                                 "enumerations are compared as multisets, best-of answers may be any optimal entry"],
+    technique="runtime monitor: executable reference model of the memory-attribute store checked after every call, under gcc ASan+UBSan+LSan",
+    level_text="exploration: random register/set/restrict/dup/XML histories against a reference map model, all query variants after every call",
+)
